@@ -27,6 +27,41 @@ PROPS = {
                      "HCHUNK_DEF.chunk_size = prod(chunk_length); fill_val_len divides nt_size",
                      "transfers start at a multiple of nt_size and end inside the element (outside: see REPORT, C misbehaves)"],
     ),
+    "C09": dict(
+        lean_props=["H4.Props.C09"],
+        engines=[
+            E("il", "e_il.c", model="il", quick=dict(cases=400), thorough=dict(cases=5000, seeds=4)),
+        ],
+        trusted_base=["GRIil_convert pointer offsets assumed < 2^31 (int32 casts of the line/pixel increments not modelled)"],
+        assumptions=["caller supplies distinct, sufficiently large in/out buffers (the C routine documents no in-place support)"],
+    ),
+    "C07": dict(
+        lean_props=["H4.Props.C07"],
+        engines=[
+            E("vs", "e_vs.c", model="vs", quick=dict(cases=400, chunk=25), thorough=dict(cases=4000, seeds=4, chunk=50, timeout=1800)),
+        ],
+        trusted_base=["DFKconvert kernels modelled as per-element copy / byte reversal (DFKnb*b, DFKsb*b); number conversion proper is outside C07",
+                      "data element (DFTAG_VS, possibly linked-block) modelled as a growable byte array with a position: C01's business",
+                      "VH packing/unpacking of the write list across Hclose/Hopen is exercised by the engine, not modelled"],
+        assumptions=["little-endian host; DFKNTsize(t) = DFKNTsize(t|DFNT_NATIVE) for all number types (generated tables NT_SIZES/NT_NSIZES, checked by lemma nt_tables)",
+                     "field names are not the reserved symbols PX..NZ; seeks stay within the records written"],
+    ),
+    "C08": dict(
+        lean_props=["H4.Props.C08"],
+        engines=[
+            E("vg", "e_vg.c", model="vg", cflags=["-DFIXED3"], quick=dict(cases=300, chunk=25), thorough=dict(cases=4000, seeds=4, chunk=50)),
+        ],
+        trusted_base=["DD layer (Hnewref/Hputelement/Hgetelement/Hdeldd) and the Vdata layer below the Vgroup tables: not modelled here; refs handed out by Hnewref are inputs of the model"],
+        assumptions=["single-threaded; one file open at a time; Vgroups are deleted only when detached (deleting an attached Vgroup frees memory the handle still uses)"],
+    ),
+    "C11": dict(
+        lean_props=["H4.Props.C11"],
+        engines=[
+            E("an", "e_an.c", model="an", quick=dict(cases=300, chunk=25), thorough=dict(cases=4000, seeds=4, chunk=50)),
+        ],
+        trusted_base=["DD layer (Htagnewref/Hputelement/Hstartwrite/HDreuse_tagref) below the annotation tables: not modelled; refs handed out by Htagnewref are inputs of the model", "atom layer (annotation ids): an annotation is identified by (type, ref) on the tie"],
+        assumptions=["single-threaded; even DD-block sizes only (Hnumber over-reads odd-sized DD blocks: a C12 finding); DFANclear() before each DFAN session (its directory cache is per file NAME)"],
+    ),
     "C13": dict(
         lean_props=["H4.Props.C13Atom"],
         engines=[
@@ -66,20 +101,4 @@ PROPS = {
 
 # merged but not yet claimed (waiting for the model to follow fix: commits in /repo); runnable with bin/check, not in MANIFEST
 PENDING = {
-    "C08": dict(
-        lean_props=["H4.Props.C08"],
-        engines=[
-            E("vg", "e_vg.c", model="vg", quick=dict(cases=300, chunk=25), thorough=dict(cases=4000, seeds=4, chunk=50)),
-        ],
-        trusted_base=["DD layer (Hnewref/Hputelement/Hgetelement/Hdeldd) and the Vdata layer below the Vgroup tables: not modelled here; refs handed out by Hnewref are inputs of the model"],
-        assumptions=["single-threaded; one file open at a time; Vgroups are deleted only when detached (deleting an attached Vgroup frees memory the handle still uses)"],
-    ),
-    "C11": dict(
-        lean_props=["H4.Props.C11"],
-        engines=[
-            E("an", "e_an.c", model="an", quick=dict(cases=300, chunk=25), thorough=dict(cases=4000, seeds=4, chunk=50)),
-        ],
-        trusted_base=["DD layer (Htagnewref/Hputelement/Hstartwrite/HDreuse_tagref) below the annotation tables: not modelled; refs handed out by Htagnewref are inputs of the model", "atom layer (annotation ids): an annotation is identified by (type, ref) on the tie"],
-        assumptions=["single-threaded; even DD-block sizes only (Hnumber over-reads odd-sized DD blocks: a C12 finding); DFANclear() before each DFAN session (its directory cache is per file NAME)"],
-    ),
 }
